@@ -480,6 +480,77 @@ func runC10(c *Ctx) {
 		c.verdict(len(bad) == 0 && n == 1, c.nm(fi)+" | one fresh, correctly filled report per request", c.P.Pos(fi.Pos()), "SpendReport{txOuts[op.Index], &h, height, uint32(i)} filed under op", join(bad)+fmt.Sprintf(" (%d report site(s))", n), sites...)
 	})
 
+	c.rule("C10.V2", "a pending outpoint stays on the watch list until it is answered: the reporter's filter-entry cache (its map field with []byte values) has one entry per outpoint (key type wire.OutPoint: two pending outpoints paying the same script must not share an entry that the first answer removes); addNewRequests enters the request's PkScript under the request's own outpoint; notifyRequests deletes exactly the answered outpoint; ProcessBlock rebuilds filterEntries by appending every cached entry", func() {
+		bsr := c.P.Named("neutrino", "batchSpendReporter")
+		var cache *types.Var
+		st := bsr.Underlying().(*types.Struct)
+		for i := 0; i < st.NumFields(); i++ {
+			if m, ok := st.Field(i).Type().Underlying().(*types.Map); ok {
+				if sl, ok := m.Elem().Underlying().(*types.Slice); ok {
+					if b, ok := sl.Elem().Underlying().(*types.Basic); ok && b.Kind() == types.Uint8 {
+						cache = st.Field(i)
+					}
+				}
+			}
+		}
+		if cache == nil {
+			c.fail("neutrino.batchSpendReporter | filter-entry cache", "-", "no map field with []byte values (the cache the watch list is rebuilt from)")
+			return
+		}
+		op := c.P.Named(pWire, "OutPoint")
+		keyT := cache.Type().Underlying().(*types.Map).Key()
+		c.verdict(types.Identical(keyT, op), "neutrino.batchSpendReporter."+cache.Name()+" | one watch-list entry per pending outpoint", "-", "map[wire.OutPoint][]byte", "the watch-list cache is keyed by "+keyT.String()+" instead of the outpoint: outpoints that share a key share one entry, and answering the first removes the script the others still need from the block filter watch list")
+		// addNewRequests
+		an := c.fn("(*neutrino.batchSpendReporter).addNewRequests")
+		inputOP := c.field("neutrino", "InputWithScript", "OutPoint")
+		inputPK := c.field("neutrino", "InputWithScript", "PkScript")
+		okAdd := false
+		for _, x := range find(an, mapUpdate(loadsField(cache))) {
+			mu := x.(*ssa.MapUpdate)
+			okAdd = loadsField(inputOP)(mu.Key) && loadsField(inputPK)(mu.Value)
+		}
+		c.verdict(okAdd, c.nm(an)+" | cache[req.Input.OutPoint] = req.Input.PkScript", c.P.Pos(an.Pos()), "entry keyed by the request's outpoint holding its script", "addNewRequests does not enter the request's script under the request's outpoint")
+		fe := c.field("neutrino", "batchSpendReporter", "filterEntries")
+		nApp := 0
+		for _, x := range find(an, storeToField(fe)) {
+			if ir.DerivesFrom(x.(*ssa.Store).Val, loadsField(inputPK)) {
+				nApp++
+			}
+		}
+		c.verdict(nApp >= 1, c.nm(an)+" | the new script joins filterEntries at once", c.P.Pos(an.Pos()), "append(b.filterEntries, entry)", "a new request's script is not added to the current watch list")
+		// notifyRequests: same outpoint for all three deletes
+		nr := c.fn("(*neutrino.batchSpendReporter).notifyRequests")
+		dels := find(nr, func(in ssa.Instruction) bool { return isBuiltin("delete")(in) })
+		okDel := 0
+		for _, x := range dels {
+			a := ir.CallOf(x).Args
+			if ld, ok := a[1].(*ssa.UnOp); ok && ld.X == ssa.Value(nr.Params[1]) {
+				okDel++
+			}
+		}
+		delCache := len(find(nr, mapDelete(loadsField(cache))))
+		c.verdict(delCache == 1 && okDel == len(dels) && len(dels) >= 3, c.nm(nr)+" | the answered outpoint (and only it) leaves requests, initialTxns and the cache", c.P.Pos(nr.Pos()), "three deletes keyed by *outpoint", fmt.Sprintf("%d delete(s), %d keyed by the answered outpoint, %d on the cache", len(dels), okDel, delCache))
+		// ProcessBlock: rebuild from every cache entry
+		pb := c.fn("(*neutrino.batchSpendReporter).ProcessBlock")
+		okRebuild := false
+		ir.Instrs(pb, func(in ssa.Instruction) {
+			n, ok := in.(*ssa.Next)
+			if !ok {
+				return
+			}
+			r, ok := n.Iter.(*ssa.Range)
+			if !ok || !loadsField(cache)(r.X) {
+				return
+			}
+			for _, x := range find(pb, storeToField(fe)) {
+				if ir.DerivesFrom(x.(*ssa.Store).Val, func(v ssa.Value) bool { return v == ssa.Value(n) }) && ir.LoopHeaderOf(x.Block()) == ir.LoopHeaderOf(n.Block()) {
+					okRebuild = true
+				}
+			}
+		})
+		c.verdict(okRebuild, c.nm(pb)+" | filterEntries rebuilt from every cached entry", c.P.Pos(pb.Pos()), "for _, entry := range cache { filterEntries = append(filterEntries, entry) }", "the watch list is not rebuilt from all cached entries")
+	})
+
 	c.rule("C10.L1", "UtxoScanner.pq and nextBatch are accessed only under s.mu (= s.cv.L); GetUtxoRequest.result only under r.mu", func() {
 		mu := c.field("neutrino", "UtxoScanner", "mu")
 		exempt := map[string]string{"neutrino.NewUtxoScanner": "constructor"}
